@@ -70,7 +70,7 @@ RULE = (f"fault enumeration: runs 0..{NENUM - 1} enumerate every stall point - a
         f"signature); non-trivial = a stall, a boundary race or a slow handler was present")
 PROBES = ["stall_in_handshake", "stall_in_request_line", "stall_in_titan_content",
           "complete_request_no_timeout", "late_data_at_boundary", "slow_handler_5T",
-          "slow_middleware", "dribble", "disconnect_near_deadline", "timeout_40_observed"]
+          "slow_middleware", "dribble", "disconnect_near_deadline", "timeout_40_observed", "via_start_server"]
 COMPONENTS = {
     "real": ["nauyaca.server.protocol (request timer)", "nauyaca.server.tls_protocol (handshake "
              "phase)", "asyncio sslproto handshake/shutdown timers", "OpenSSL"],
@@ -192,8 +192,34 @@ def run_one(ch):
     out = {}
     horizon = T_HANDSHAKE + 6 * T + 120.0
 
+    # a share of the seeded Gemini-shaped runs goes through the whole start_server()
+    # (its own create_server call, TLS contexts and backend selection)
+    use_ss = phase == 1 and mode != "plain" and s in (0, 1) and sc["hdelay"] is None and \
+        sc["mwdelay"] is None and ch.chance("start_server", 0.5)
+    if use_ss:
+        sc["case"] += "/start_server"
+        hresp_wire = b"20 text/gemini\r\n# index\n" if s == 0 else None
+
     async def main():
-        server = await sw.start_protocol_server(sim, mode, spy, mw, upspy)
+        srv_task = None
+        if use_ss:
+            import pathlib
+            from nauyaca.server.config import ServerConfig
+            from nauyaca.server.server import start_server
+            from sim.world import fresh_dir
+            root = pathlib.Path(fresh_dir("c15"), "root")
+            root.mkdir()
+            (root / "index.gmi").write_text("# index\n")
+            cfg = ServerConfig(host=HOST, port=1965, document_root=root,
+                               certfile=pathlib.Path(fx.crt("rsa1")), keyfile=pathlib.Path(fx.key("rsa1")),
+                               require_client_cert=(mode == "pyopenssl"))
+            srv_task = asyncio.ensure_future(start_server(cfg, log_level="CRITICAL"))
+            await asyncio.sleep(0.001)
+            if srv_task.done():
+                srv_task.result()
+            server = None
+        else:
+            server = await sw.start_protocol_server(sim, mode, spy, mw, upspy)
         t0 = net.now
         out["t0"] = t0
         ep = raw_connect(net, HOST, 1965, c2s=WholePolicy(0.001), s2c=WholePolicy(0.001), tag="k0")
@@ -212,7 +238,10 @@ def run_one(ch):
         out["t0"] = t0
         await asyncio.sleep(horizon - 10.0)
         peer.drain_final()
-        server.close()
+        if server is not None:
+            server.close()
+        if srv_task is not None:
+            srv_task.cancel()
 
     def _sleep_until(p, rel):
         base = p.t_hs_done if p.t_hs_done is not None else out["t0"]
@@ -300,7 +329,11 @@ def run_one(ch):
                             "response", **ctx)
             else:
                 exp_h = sw.expected_wire(hresp if not sent.startswith(b"titan") else uresp)
+                if use_ss:
+                    exp_h = hresp_wire or rx
                 is_timeout = pw["status"] == 40 and rx != exp_h
+                if use_ss and hresp_wire is None:
+                    is_timeout = rx.startswith(b"40 Request timeout")
                 if delta <= -0.004 and is_timeout and k < len(sent):
                     res.violate(f"C15/timeout-before-deadline-with-complete-request/{site}",
                                 "the complete request arrived before the deadline but a timeout "
@@ -312,6 +345,12 @@ def run_one(ch):
         else:
             # complete request delivered: the handler's own response, never a timeout
             exp = sw.expected_wire(hresp if not sent.startswith(b"titan") else uresp)
+            if use_ss:
+                # the 1024-byte path has no file: any well-formed answer of the static
+                # handler is fine (51, or 40 "File name too long") - but not a timeout
+                exp = hresp_wire if hresp_wire is not None else \
+                    (rx if (pw and pw["ok"] and not rx.startswith(b"40 Request timeout"))
+                     else b"<a non-timeout response>")
             if rx != exp:
                 res.violate(f"C15/timeout-after-complete-request/{site}",
                             "a complete request was received and being answered, yet the client "
@@ -344,6 +383,8 @@ def run_one(ch):
         res.stats["slow_middleware"] += 1
     if sc["case"].startswith("dribble"):
         res.stats["dribble"] += 1
+    if use_ss:
+        res.stats["via_start_server"] += 1
     res.stats["enumerated" if phase == 0 else "seeded"] += 1
     res.sim_seconds = net.now
     res.signature = hashlib.sha256((sc["case"] + sim.signature()).encode()).hexdigest()[:16]
